@@ -19,8 +19,9 @@ Inductive tok :=
 | TLink (image : bool) (children : list tok) (url : str) (title : option str) (has_title_key : bool) (ref : option (str * str))
 | TExt (name : str) (children : list tok).   (* a token of an inline plugin: strikethrough, mark, insert, superscript, subscript *)
 
-Record flags := { in_image : bool; in_link : bool; in_emphasis : bool; in_strong : bool }.
-Definition flags0 : flags := {| in_image := false; in_link := false; in_emphasis := false; in_strong := false |}.
+(* in_link_text: inside the text of a Markdown link (a raw </a> does not end that; InlineState.in_link_text) *)
+Record flags := { in_image : bool; in_link : bool; in_emphasis : bool; in_strong : bool; in_link_text : bool }.
+Definition flags0 : flags := {| in_image := false; in_link := false; in_emphasis := false; in_strong := false; in_link_text := false |}.
 
 Inductive irule := IEscape | ICodespan | IEmphasis | ILink | IAutoLink | IAutoEmail | IInlineHtml | ILinebreak | ISoftbreak
                  | IPrecAutoLink | IPrecInlineHtml
@@ -236,8 +237,8 @@ Definition startswith_any (s : str) (ps : list str) : bool := existsb (fun p => 
 
 Definition link_token (h : handler) (is_image : bool) (text : str) (url : str) (title : option str) (tk : bool)
            (ref : option (str * str)) (fl : flags) : res tok :=
-  let fl' := if is_image then {| in_image := true; in_link := in_link fl; in_emphasis := in_emphasis fl; in_strong := in_strong fl |}
-             else {| in_image := in_image fl; in_link := true; in_emphasis := in_emphasis fl; in_strong := in_strong fl |} in
+  let fl' := if is_image then {| in_image := true; in_link := in_link fl; in_emphasis := in_emphasis fl; in_strong := in_strong fl; in_link_text := in_link_text fl |}
+             else {| in_image := in_image fl; in_link := true; in_emphasis := in_emphasis fl; in_strong := in_strong fl; in_link_text := true |} in
   do ch <- irender h text fl'; Ok (TLink is_image ch url title tk ref).
 
 Definition codespan_rx (marker : str) : rx :=
@@ -298,7 +299,7 @@ Definition link_body (h : handler) (m : mresult) (src : str) (fl : flags) (is_im
 
 (* one level of handlers, given the handlers of the level below (for nested rendering and precedence) *)
 Definition set_link (fl : flags) (b : bool) : flags :=
-  {| in_image := in_image fl; in_link := b; in_emphasis := in_emphasis fl; in_strong := in_strong fl |}.
+  {| in_image := in_image fl; in_link := b; in_emphasis := in_emphasis fl; in_strong := in_strong fl; in_link_text := in_link_text fl |}.
 
 Definition handle_with (h : handler) (rk : irule) (m : mresult) (src : str) (fl : flags) : res hres :=
   let pos := mend m in
@@ -309,7 +310,7 @@ Definition handle_with (h : handler) (rk : irule) (m : mresult) (src : str) (fl 
   | ISoftbreak => Ok (Some pos, [TSoftbreak], fl)
   | IInlineHtml | IPrecInlineHtml =>
     let fl' := if startswith_any marker [[60; 97; 32]; [60; 97; 62]; [60; 65; 32]; [60; 65; 62]]%Z then set_link fl true
-               else if startswith_any marker [[60; 47; 97; 32]; [60; 47; 97; 62]; [60; 47; 65; 32]; [60; 47; 65; 62]]%Z then set_link fl false
+               else if startswith_any marker [[60; 47; 97; 32]; [60; 47; 97; 62]; [60; 47; 65; 32]; [60; 47; 65; 62]]%Z then set_link fl (in_link_text fl)
                else fl in
     Ok (Some pos, [TInlineHtml marker], fl')
   | IAutoLink | IPrecAutoLink =>
@@ -351,13 +352,13 @@ Definition handle_with (h : handler) (rk : irule) (m : mresult) (src : str) (fl 
           | Some (p, toks) => Ok (Some p, toks, fl)
           | None =>
             if Nat.eqb mlen 1 then
-              do ch <- irender h text {| in_image := in_image fl; in_link := in_link fl; in_emphasis := true; in_strong := in_strong fl |};
+              do ch <- irender h text {| in_image := in_image fl; in_link := in_link fl; in_emphasis := true; in_strong := in_strong fl; in_link_text := in_link_text fl |};
               Ok (Some end_pos, [TEmphasis ch], fl)
             else if Nat.eqb mlen 2 then
-              do ch <- irender h text {| in_image := in_image fl; in_link := in_link fl; in_emphasis := in_emphasis fl; in_strong := true |};
+              do ch <- irender h text {| in_image := in_image fl; in_link := in_link fl; in_emphasis := in_emphasis fl; in_strong := true; in_link_text := in_link_text fl |};
               Ok (Some end_pos, [TStrong ch], fl)
             else
-              do ch <- irender h text {| in_image := in_image fl; in_link := in_link fl; in_emphasis := true; in_strong := true |};
+              do ch <- irender h text {| in_image := in_image fl; in_link := in_link fl; in_emphasis := true; in_strong := true; in_link_text := in_link_text fl |};
               Ok (Some end_pos, [TEmphasis [TStrong ch]], fl)
           end
         end
